@@ -273,7 +273,7 @@ func c01(c *core.Ctx) {
 	}
 
 	// ---------------------------------------------------------------- R2
-	if c.Rule("R2", "a send reports success only if the frame was handed over, exactly once", 6) {
+	if c.Rule("R2", "a send reports success only if the frame was handed over, exactly once", 4) {
 		c01Sends(c)
 		c.EndRule()
 	}
@@ -519,7 +519,7 @@ func c01(c *core.Ctx) {
 	}
 
 	// ---------------------------------------------------------------- R5
-	if c.Rule("R5", "HTTP reader and writer agree on the framing: same byte order and integer width, size = ±len(b) of the slice written next (negative iff end), unary body = the marshalled bytes whose length is announced", 6) {
+	if c.Rule("R5", "HTTP reader and writer agree on the framing: same byte order and integer width, size = ±len(b) of the slice written next (negative iff end), unary body = the marshalled bytes whose length is announced", 4) {
 		c01Framing(c)
 		c.EndRule()
 	}
